@@ -75,7 +75,8 @@ fn random(a: &Args) {
     for k in 0..count {
         let mut cfg = base.clone();
         cfg.n_res = rng.gen_range(2..=base.n_res.max(2));
-        let prog = gen_prog(&mut rng, &cfg, 0, "");
+        // now and then a funnel program: groups filled to the capacity limit
+        let prog = if rng.gen_bool(a.num("pfunnel", 0.12)) { shredh::prog::gen_funnel(&mut rng) } else { gen_prog(&mut rng, &cfg, 0, "") };
         let mut res = Vec::new();
         prog.resources(&mut res);
         let variant = if rng.gen_bool(0.5) { Variant::identity(&res) } else { Variant::random(&res, &mut rng) };
